@@ -133,10 +133,10 @@ class HistHost:
         return h
 
     def get_build_url(self, sha, key):
-        return 'http://build'
+        return 'http://build/%s/%s' % (key, str(sha).strip())
 
     def get_commit_url(self, sha):
-        return 'http://commit'
+        return 'http://commit/%s' % str(sha).strip()
 
     def get_build_status(self, sha, key):
         return self.session.build_status(sha, key)
@@ -343,6 +343,12 @@ class BaseSession:
                 self.third_party_delete(*args)
             elif kind == 'fetch_fault':         # the next refresh of the mirror cache fails
                 self.set_fetch_fault()
+            elif kind == 'race_push':           # somebody pushes to that branch while the next job clones
+                self.set_race(args[0])
+            elif kind == 'tag_delete':          # a release tag is removed on the host
+                self.third_party_tag_delete(args[0])
+            elif kind == 'new_machine':         # the robot moves to a machine without mirror cache
+                self.drop_cache()
             elif kind == 'tmp_reaper':          # the previous job's scratch directory vanished (tmp cleaner)
                 import shutil
                 d = getattr(self.repo, 'tmp_directory', None)
@@ -367,7 +373,7 @@ class SymSession(BaseSession):
 
     def __init__(self, ctx, shape, prs, mode, no_octopus=True, nfresh=40, extra_refs=(),
                  with_w=False, natoms=None, settings=None, monitors=(), fresh_prs=True,
-                 green=False, no_conflicts=False, log_cut=True):
+                 green=False, no_conflicts=False, log_cut=True, tags=()):
         self.ctx = ctx
         refs = list(shape) + [p.src for p in prs] + list(extra_refs)
         if with_w:
@@ -376,7 +382,7 @@ class SymSession(BaseSession):
         qrefs = ['q/' + GF.version_of(d) for d in shape] if mode != 'noqueue' else []
         if natoms is None:
             natoms = len(refs) + 1
-        repo = SymRepo(ctx, refs + qrefs, natoms, nfresh)
+        repo = SymRepo(ctx, refs + qrefs, natoms, nfresh, tags=tags)
         SymSession.counter += 1
         repo._url = 'sym://host/r%d_%d' % (os.getpid(), SymSession.counter)    # its own mirror cache
         repo.model_clone = True
@@ -405,6 +411,7 @@ class SymSession(BaseSession):
         repo.monitors = list(monitors)
         self.status_queries = []
         self.pushed_atoms = []
+        repo.raced = self.pushed_atoms        # commits pushed by others, in the order they happen
         self.snapshots = []
         super().__init__(shape, prs, mode, no_octopus, settings)
         self.make_berte()
@@ -525,6 +532,20 @@ class SymSession(BaseSession):
     def set_fetch_fault(self):
         self.repo.fetch_fault = True
 
+    def set_race(self, ref):
+        self.repo.race_ref = ref
+
+    def third_party_tag_delete(self, tag):
+        self.repo.remote_tags.pop(tag, None)
+
+    def drop_cache(self):
+        import shutil
+        r = self.repo
+        r.cache = None
+        r.cache_tags = None
+        slug = r._url.split('/')[-1].replace('.git', '')
+        shutil.rmtree(os.path.join(os.path.expanduser('~/.bert-e'), slug + '.git'), ignore_errors=True)
+
     # -- snapshots (to run two continuations of one prefix on the same path) ----------------
     def snapshot(self):
         r = self.repo
@@ -586,6 +607,7 @@ class RealSession(BaseSession):
         self.status_by_content = dict(world_data.get('status_by_content', {}))
         self.next_atom = world_data['N']
         self.reject_next = None
+        self.tp_heads = {}
         self.log_cut = log_cut
         super().__init__(shape, prs, mode, no_octopus, settings)
         self.make_berte()
@@ -606,6 +628,9 @@ class RealSession(BaseSession):
                 if sess._merge_conflicts(rself, full):
                     from bert_e.lib.simplecmd import CommandError
                     raise CommandError('Command %s returned with code 1: CONFLICT (content): as the model says' % full)
+            if rself is sess.repo and command.startswith('git remote update') and getattr(sess, 'race_ref', None):
+                r, sess.race_ref = sess.race_ref, None
+                sess.third_party_commit(r)
             if rself is sess.repo and command.startswith('git fetch') and getattr(sess, 'fail_fetch', False):
                 from bert_e.lib.simplecmd import CommandError
                 sess.fail_fetch = False
@@ -697,6 +722,7 @@ class RealSession(BaseSession):
         tree = git(bare, 'mktree', inp=listing + '\n100644 blob %s\ta%02d\n' % (blob, i))
         c = git(bare, 'commit-tree', tree, '-p', h[ref], '-m', 'third party commit %d' % i)
         git(bare, 'update-ref', 'refs/heads/' + ref, c)
+        self.tp_heads[ref] = c          # what its owner last wrote (for the foreign-ref monitor)
 
     def content_of(self, ref):
         h = self.world.heads()
@@ -772,6 +798,19 @@ class RealSession(BaseSession):
 
     def set_fetch_fault(self):
         self.fail_fetch = True
+
+    def set_race(self, ref):
+        self.race_ref = ref
+
+    def third_party_tag_delete(self, tag):
+        from symgit.realgit import git
+        if tag in self.world.tag_refs():
+            git(self.world.bare, 'update-ref', '-d', 'refs/tags/' + tag)
+
+    def drop_cache(self):
+        import shutil
+        slug = self.repo._url.split('/')[-1].replace('.git', '')
+        shutil.rmtree(os.path.join(os.path.expanduser('~/.bert-e'), slug + '.git'), ignore_errors=True)
 
     # commits are immutable: a snapshot of the server is its ref table
     def snapshot(self):
